@@ -580,6 +580,44 @@ func (r *Runner) execSketch(cmd string, a []string) string {
 			e.inputs[i].w = new(big.Rat).Mul(e.inputs[i].w, wr)
 		}
 		return "ok"
+	case "fe":
+		if len(a) != 2 {
+			return "bad-op"
+		}
+		e, bad := r.getSk(a[0])
+		if e == nil {
+			return bad
+		}
+		k, err := strconv.Atoi(a[1])
+		if err != nil {
+			return "bad-op"
+		}
+		calls := 0
+		okp, msg := guard(func() {
+			f := func(value, count float64) bool {
+				calls++
+				return k > 0 && calls >= k
+			}
+			if e.exact != nil {
+				e.exact.ForEach(f)
+			} else {
+				e.plain.ForEach(f)
+			}
+		})
+		if !okp {
+			return r.poisonSk(e, "ForEach", msg)
+		}
+		// direct: stops as soon as asked
+		total := 0
+		e.sk().ForEach(func(v, c float64) bool { total++; return false })
+		want := total
+		if k > 0 && k < total {
+			want = k
+		}
+		if calls != want {
+			r.oracleFail("foreach-stop", fmt.Sprintf("callback asked to stop at call %d of %d bins: %d calls made", k, total, calls))
+		}
+		return strconv.Itoa(calls)
 	case "same":
 		if len(a) != 2 {
 			return "bad-op"
